@@ -24,7 +24,7 @@ pub struct Tok {
 pub struct Scan {
     /// non-trivia tokens with the optional trailing commas removed
     pub code: Vec<Tok>,
-    pub code_parent: Vec<TokenKind>,
+    pub code_parent: Vec<String>,
     pub comments: Vec<String>,
     /// (comment text, syntactic context) for failure signatures
     pub comment_ctx: Vec<(String, String)>,
@@ -40,21 +40,22 @@ pub fn context_at(text: &str, offset: usize) -> String {
             // nearest non-trivia token at or after
             let j = (i..sc.0.len()).find(|&j| !sc.0[j].0.is_trivia()).unwrap_or(i);
             let _ = k;
-            return format!("{:?} in {:?}", sc.0[j].0, sc.1[j]);
+            return format!("{:?} in {}", sc.0[j].0, sc.1[j]);
         }
         pos += t.len();
     }
     "END".into()
 }
 
-fn scan_raw(text: &str) -> Result<(Vec<(TokenKind, String, u8)>, Vec<TokenKind>), ()> {
+fn scan_raw(text: &str) -> Result<(Vec<(TokenKind, String, u8)>, Vec<String>), ()> {
     let (file, errors) = Parser::from_shared_string(Arc::new(text.to_string())).parse();
     if !errors.is_empty() {
         return Err(());
     }
-    let mut c = Collector { toks: vec![], parents: vec![] };
+    let mut c = Collector { toks: vec![], parents: vec![], owners: vec![] };
     c.walk(&file.root());
-    Ok((c.toks, c.parents))
+    let names = c.parents.iter().zip(c.owners.iter()).map(|(p, o)| ctx_name(*p, *o)).collect();
+    Ok((c.toks, names))
 }
 
 fn is_comment(k: TokenKind) -> bool {
@@ -68,11 +69,21 @@ fn is_closer(k: TokenKind) -> bool {
 struct Collector {
     toks: Vec<(TokenKind, String, u8)>, // kind, text, comma flag: 0 = ordinary, 1 = mandatory (1-tuple), 2 = trailing (last item of a list)
     parents: Vec<TokenKind>,               // parent node kind per token
+    owners: Vec<TokenKind>,                // nearest ancestor that is not a LIST_ITEM (names the kind of list)
+}
+
+/// "PARENT", or "LIST_ITEM of OWNER" so that lists of different constructs get different signatures
+fn ctx_name(parent: TokenKind, owner: TokenKind) -> String {
+    if parent == TokenKind::LIST_ITEM { format!("LIST_ITEM of {owner:?}") } else { format!("{parent:?}") }
 }
 
 impl Collector {
     fn walk(&mut self, n: &SyntaxNode) {
+        self.walk_in(n, n.green().syntax_kind())
+    }
+    fn walk_in(&mut self, n: &SyntaxNode, owner_above: TokenKind) {
         let kind = n.green().syntax_kind();
+        let owner = if kind == TokenKind::LIST_ITEM { owner_above } else { kind };
         let single_tuple = matches!(kind, TokenKind::TUPLE_EXPR | TokenKind::TUPLE_TYPE | TokenKind::TUPLE_PATTERN)
             && n.children().filter(|c| c.green().syntax_kind() == TokenKind::LIST_ITEM).count() == 1;
         let last_item = n.children().filter(|c| c.green().syntax_kind() == TokenKind::LIST_ITEM).count();
@@ -82,10 +93,11 @@ impl Collector {
                 SyntaxElement::Token(t) => {
                     self.toks.push((t.syntax_kind(), t.text().to_string(), 0));
                     self.parents.push(kind);
+                    self.owners.push(owner);
                 }
                 SyntaxElement::Node(c) => {
                     let start = self.toks.len();
-                    self.walk(&c);
+                    self.walk_in(&c, owner);
                     if c.green().syntax_kind() == TokenKind::LIST_ITEM {
                         item_no += 1;
                         // a comma that ends the last item of a list is a trailing separator;
@@ -114,7 +126,7 @@ pub fn scan(text: &str) -> Result<Scan, String> {
     if !errors.is_empty() {
         return Err(format!("parse errors: {:?}", errors.iter().take(3).map(|e| (e.span, e.error.message())).collect::<Vec<_>>()));
     }
-    let mut c = Collector { toks: vec![], parents: vec![] };
+    let mut c = Collector { toks: vec![], parents: vec![], owners: vec![] };
     c.walk(&file.root());
     let mut code = vec![];
     let mut code_parent = vec![];
@@ -139,7 +151,7 @@ pub fn scan(text: &str) -> Result<Scan, String> {
             }
         }
         code.push(Tok { kind: k as u16, text: t.clone() });
-        code_parent.push(c.parents[i]);
+        code_parent.push(ctx_name(c.parents[i], c.owners[i]));
     }
     for (i, (k, t, _)) in c.toks.iter().enumerate() {
         if is_comment(*k) {
@@ -312,7 +324,7 @@ pub fn check_format(text: &str, width: u32) -> Result<Option<FmtStats>, (String,
             let ctx = |v: &[Tok]| v[i.saturating_sub(6)..(i + 6).min(v.len())].iter().map(|t| t.text.as_str()).collect::<Vec<_>>().join(" ");
             let ka = before.code.get(i).map(|t| format!("{:?}", unsafe_kind(t.kind))).unwrap_or("END".into());
             let kb = after.code.get(i).map(|t| format!("{:?}", unsafe_kind(t.kind))).unwrap_or("END".into());
-            let pa = before.code_parent.get(i).map(|k| format!("{k:?}")).unwrap_or("END".into());
+            let pa = before.code_parent.get(i).cloned().unwrap_or("END".into());
             return Err((
                 format!("tokens-changed:{ka}->{kb} in {pa}"),
                 format!("width {width}: code tokens differ at token #{i}\n  input : … {}\n  output: … {}", ctx(&before.code), ctx(&after.code)),
@@ -354,7 +366,12 @@ pub fn check_format(text: &str, width: u32) -> Result<Option<FmtStats>, (String,
         let i = a.iter().zip(b.iter()).position(|(x, y)| x != y).unwrap_or(a.len().min(b.len()));
         let off = out.bytes().zip(again.bytes()).position(|(x, y)| x != y).unwrap_or(out.len().min(again.len()));
         return Err((
-            format!("not-idempotent:{}", context_at(&out, off)),
+            {
+                // one root cause for every kind of list: a comment between the trailing comma and the closing
+                // delimiter makes the comma come and go — keyed without the list kind
+                let ctx = context_at(&out, off);
+                format!("not-idempotent:{}", if ctx.starts_with("COMMA in LIST_ITEM of ") { "COMMA in LIST_ITEM".to_string() } else { ctx })
+            },
             format!("width {width}: formatting the output again changes it at line {}:\n  1st: {:?}\n  2nd: {:?}", i + 1, a.get(i), b.get(i)),
         ));
     }
@@ -385,7 +402,7 @@ pub fn layout_mutant(c: &mut Choices, base: &str) -> Option<String> {
     }
     let mut out = String::new();
     let mut prev_line_comment = false;
-    let mode = c.below(4); // 0 = random, 1 = dense (joined), 2 = airy, 3 = comment-heavy
+    let mode = c.below(5); // 0 = random, 1 = dense (joined), 2 = airy, 3 = comment-heavy, 4 = comments at list tails
     let mut first = true;
     for (k, t) in pieces.iter() {
         if matches!(k, TokenKind::WHITESPACE | TokenKind::NEWLINE) {
@@ -396,8 +413,28 @@ pub fn layout_mutant(c: &mut Choices, base: &str) -> Option<String> {
             if prev_line_comment {
                 out.push('\n');
             }
+            // a comment between the trailing comma of a list and its closing delimiter (the comma may be
+            // mandatory there: one-element tuples)
+            if out.ends_with(',') && matches!(*t, ")" | "]" | "}" | "|") && c.chance(if mode == 4 { 4 } else { 1 }, 5) {
+                // Known finding C17/not-idempotent:R_PAREN in TUPLE_EXPR (and a swarm of context-dependent
+                // signatures of the same cause): a block comment that spans lines, placed before a closing
+                // delimiter, is not laid out stably. Excluded by construction (counted); its reproducer stays.
+                match c.below(3) {
+                    0 => out.push_str(&format!(" // t{}\n", c.below(100))),
+                    1 => out.push_str(&format!(" /* t{} */\n", c.below(100))),
+                    _ => {
+                        EXCLUDED_LINE_COMMENTS.fetch_add(1, std::sync::atomic::Ordering::Relaxed);
+                        out.push_str(&format!(" /* t{} */ ", c.below(100)))
+                    }
+                }
+                out.push_str(t);
+                first = false;
+                prev_line_comment = false;
+                continue;
+            }
             let sep = match mode {
                 1 => c.weighted(&[6, 1, 1, 0, 0, 0]),
+                4 => c.weighted(&[5, 1, 2, 0, 0, 0]),
                 2 => c.weighted(&[1, 2, 3, 2, 0, 0]),
                 3 => c.weighted(&[2, 1, 2, 1, 3, 3]),
                 _ => c.weighted(&[3, 2, 2, 1, 1, 1]),
@@ -410,7 +447,7 @@ pub fn layout_mutant(c: &mut Choices, base: &str) -> Option<String> {
                     // Known finding C17/not-idempotent:* — blank lines anywhere but between
                     // statements/items are not stable. Excluded by construction (counted):
                     // blank-line runs are only generated after `;` and `}`.
-                    if out.ends_with(';') || out.ends_with('}') {
+                    if out.ends_with(';') || (out.ends_with('}') && *t != "{") {
                         out.push_str("\n\n\n")
                     } else {
                         EXCLUDED_BLANK_RUNS.fetch_add(1, std::sync::atomic::Ordering::Relaxed);
@@ -556,7 +593,7 @@ pub fn main(mode: Mode) -> i32 {
             ctx.run_known_reproducers(&iso);
             let widths: &[u32] = if ctx.thorough() { WIDTHS } else { &[90, 40, 1] };
             ctx.run_enum(&iso, corpus_cases(widths));
-            let n = ctx.n(8_000, 300_000);
+            let n = ctx.n(30_000, 400_000);
             ctx.run_search(&iso, n, 200, 300);
             if ctx.thorough() || std::env::var("VERIF_FUZZ").is_ok() {
                 let runs = ctx.n(100_000, 3_000_000) as u64;
